@@ -1009,9 +1009,10 @@ def h_bytevals(F, R):   # noqa: F811
 _WIRE_SIZE = {"byte": 1, "u16": 2, "u32": 4, "utf8": 5, "binary": 5, "varint": 1}      # strings / binary data: 2 + 3 bytes
 
 
-def _whole_block(F, fid, id_byte, plen):
+def _whole_block(F, fid, id_byte, plen, second=None):
     """Evaluate a whole *Properties::decode_async on a block whose declared length is `plen` and whose first identifier byte is
-    `id_byte`: every string read is 3 bytes long, every var-int value takes one byte, integers are 7, bytes are 0."""
+    `id_byte`: every string read is 3 bytes long, every var-int value takes one byte, integers are 7, bytes are 0. With
+    `second` = (id byte, number of byte-sized value reads of the first property) a second property follows the first."""
     state = {"n_u8": 0, "nvar": 0}
     reads = []
 
@@ -1030,6 +1031,8 @@ def _whole_block(F, fid, id_byte, plen):
                 state["n_u8"] += 1
                 if state["n_u8"] == 1:
                     return pe_ok(id_byte)
+                if second is not None and state["n_u8"] == 2 + second[1] and len(reads) >= second[2]:
+                    return pe_ok(second[0])
                 reads.append(kind)
                 return pe_ok(0)
             reads.append(kind)
@@ -1183,7 +1186,40 @@ def t_props_whole(F, R):
             R.check(short[0] == "err" and short[1] == "InvalidPropertyLength" and short[2] == [size - 1], "T-props", "%s/whole/%s/short" % (ent["name"], v),
                     "%s on a block declared %d bytes long that holds one %s of %d bytes gives %s (documented: InvalidPropertyLength(%d))" % (
                         ent["name"], size - 1, v, size, repr(short)[:120], size - 1), where=fid)
+    # two different properties in one block do not interfere: both are stored (no shared "seen" slot, no ordering rule)
+    m = 0
+    for ent in ents:
+        fid = ent["decode"]
+        try:
+            tab, loop = probe_table(F, fid)
+        except AnchorLost:
+            continue
+        dflt, _rd0 = _whole_block(F, fid, 0, 0)
+        if dflt[0] != "ok" or not isinstance(dflt[1], Adt):
+            continue
+        base = dflt[1]
+        allowed = [(v, d) for v, d in sorted(discr.items(), key=lambda kv: kv[1])
+                   if d in S.props_of(ent["packet"]) and tab[v]["outcome"] == ("continue",)]
+        bad = []
+        for v1, d1 in allowed:
+            for v2, d2 in allowed:
+                if v1 == v2:
+                    continue
+                m += 1
+                r1, r2 = tab[v1]["reads"], tab[v2]["reads"]
+                size = 2 + sum(_WIRE_SIZE[k] for k in r1) + sum(_WIRE_SIZE[k] for k in r2)
+                got, rd = _whole_block(F, fid, d1, size, second=(d2, sum(1 for k in r1 if k == "byte"), len(r1)))
+                good = got[0] == "ok" and isinstance(got[1], Adt)
+                if good:
+                    changed = [f for f in base.fields if vkey_(got[1].fields.get(f)) != vkey_(base.fields[f])]
+                    good = len(changed) == 2 and rd == r1 + r2
+                if not good:
+                    bad.append((v1, v2, repr(got)[:100]))
+        R.check(not bad, "T-props", "%s/whole/pairs" % ent["name"],
+                "%s: %d ordered pair(s) of different allowed properties in one block are not both stored, e.g. %s then %s gives %s" % (
+                    (ent["name"], len(bad)) + (bad[0] if bad else ("", "", ""))), where=fid)
     R.floor("T-props", "whole-function (set, property) evaluations", n, 60)
+    R.floor("T-props", "whole-function property pairs", m, 400)
 
 
 def h_topicvals(F, R):
